@@ -39,6 +39,7 @@ fn worker(check: &str, tier: Tier, i: usize, n: usize, from: usize, only: Option
     enum Item { Ty(vcore::Entry), Seq(&'static str, Box<dyn seqs::SeqOps>), Mut(&'static str, &'static str, vcore::Entry) }
     let all: Vec<Item> = if check == "C16" { seqs::all().into_iter().map(|(id, o)| Item::Seq(id, o)).collect() }
         else if check == "C04" { universe::all().into_iter().map(Item::Ty).chain(mutants::all().into_iter().map(|(f, id, e)| Item::Mut(f, id, e))).collect() }
+        else if check == "C13" { universe::all().into_iter().map(Item::Ty).chain(seqs::all().into_iter().map(|(id, o)| Item::Seq(Box::leak(format!("borrowed slice / iterator over {}", id).into_boxed_str()), o))).collect() }
         else { universe::all().into_iter().map(Item::Ty).collect() };
     let id_of = |it: &Item| match it { Item::Ty(e) => e.id, Item::Seq(id, _) => id, Item::Mut(_, id, _) => id };
     let members: Vec<vcore::checks4::Member> = if check == "C04" { all.iter().map(|it| match it {
@@ -61,6 +62,7 @@ fn worker(check: &str, tier: Tier, i: usize, n: usize, from: usize, only: Option
             Item::Ty(_) | Item::Mut(..) if check == "C04" => vcore::env::guarded(|| vcore::checks4::c04(&members, mine_idx[k], band, &mut cx)),
             Item::Ty(e) => vcore::env::guarded(|| vcore::run_check(e.ops.as_ref(), check, &mut cx)),
             Item::Mut(..) => unreachable!(),
+            Item::Seq(_, o) if check == "C13" => vcore::env::guarded(|| seqs::c13_borrowed(o.as_ref(), &mut cx)),
             Item::Seq(_, o) => vcore::env::guarded(|| seqs::c16(o.as_ref(), &mut cx)),
         };
         if let Err(p) = r { cx.machinery_error(format!("checker panicked: {}", p)); }
